@@ -241,6 +241,8 @@ class Exec:
         self.cvc5_decided = 0
         self.deadline = None
         self.const_cache = {}
+        self.merge_pat = None  # regex over body names whose calls are summarised by merging their return paths
+        self.merged_calls = 0
         self.nfresh = 0
         self.ncell = 0
         self.queries = 0
@@ -542,7 +544,9 @@ class Exec:
             p = projs[i]
             k = p[0]
             if k == "field":
-                if isinstance(v, Adt):
+                if isinstance(v, Ref) and len(p) > 2 and p[2] and p[2].startswith(("std::ptr::Unique<", "std::ptr::NonNull<")):
+                    pass  # Box<T> is modelled as a reference to its heap cell: Box.0 (Unique) .0 (NonNull) is that pointer
+                elif isinstance(v, Adt):
                     v = v.fields[p[1]]
                 elif isinstance(v, tuple):  # downcast payload
                     v = v[p[1]]
@@ -1201,6 +1205,22 @@ class Exec:
                 return
         raise MirUnsupported("statement %s" % s.raw)
 
+    def _merged_call(self, st, body, args):
+        """function summary on the fly: explore a pure callee to the end, merge its returning paths into one
+        if-then-else value (keeps recursion over symbolic trees polynomial instead of forking per constructor pair)"""
+        base_pc, base_as = len(st.pc), len(st.assumed)
+        outs = list(self.run_body(st.fork(), body, list(args)))
+        if not outs or any(o.kind != "return" for o in outs):
+            return None
+        conds = [z3.And(o.st.pc[base_pc:]) if len(o.st.pc) > base_pc else z3.BoolVal(True) for o in outs]
+        val = _merge_values([o.value for o in outs], conds)
+        if val is None:
+            return None
+        for o, c in zip(outs, conds):
+            st.log += [e for e in o.st.log[len(st.log):]] if False else []
+        self.merged_calls += 1
+        return Outcome("return", st, value=val)
+
     # ------------------------------------------------------------------ calls
 
     def call(self, st, callee, args, dest_ty, caller=None):
@@ -1221,9 +1241,58 @@ class Exec:
                 return
         b = self.resolve(callee, getattr(caller, "crate", None))
         if b is not None:
+            if self.merge_pat is not None and self.merge_pat.search(b.name):
+                merged = self._merged_call(st, b, args)
+                if merged is not None:
+                    yield merged
+                    return
             yield from self.run_body(st, b, args)
             return
         raise MirUnsupported("no MIR body and no model for callee `%s`%s" % (callee, " (called from %s)" % caller.name if caller else ""))
+
+
+def _merge_values(vals, conds):
+    """ite-merge of path results: scalars of one type, or enums/aggregates of the same shape (recursively); None if impossible"""
+    v0 = vals[0]
+    if all(isinstance(v, Sc) for v in vals) and len({v.ty for v in vals}) == 1:
+        e = vals[-1].e
+        for v, c in zip(reversed(vals[:-1]), reversed(conds[:-1])):
+            e = z3.If(c, v.e, e)
+        return Sc(z3.simplify(e), v0.ty)
+    if all(isinstance(v, En) for v in vals) and len({v.ty for v in vals}) == 1:
+        disc = vals[-1].disc
+        for v, c in zip(reversed(vals[:-1]), reversed(conds[:-1])):
+            disc = z3.If(c, v.disc, disc)
+        alts = {}
+        names = []
+        for v in vals:
+            for k in v.alts:
+                if k not in names:
+                    names.append(k)
+        for k in names:
+            have = [(v.alts[k], c) for v, c in zip(vals, conds) if k in v.alts]
+            arity = {len(f) for f, _ in have}
+            if len(arity) != 1:
+                return None
+            fields = []
+            for i in range(arity.pop()):
+                m = _merge_values([f[i] for f, _ in have], [c for _, c in have])
+                if m is None:
+                    return None
+                fields.append(m)
+            alts[k] = tuple(fields)
+        return En(v0.ty, z3.simplify(disc), alts)
+    if all(isinstance(v, Adt) for v in vals) and len({(v.kind, v.ty, len(v.fields)) for v in vals}) == 1:
+        fields = []
+        for i in range(len(v0.fields)):
+            m = _merge_values([v.fields[i] for v in vals], conds)
+            if m is None:
+                return None
+            fields.append(m)
+        return Adt(v0.kind, v0.ty, fields)
+    if all(v is v0 for v in vals):
+        return v0
+    return None
 
 
 def _has_ref(v):
